@@ -730,3 +730,28 @@ def futex_family():
         m = Module(funcs=[n, w32, w64], mems=mems, exports=[('n', 'func', 0), ('w32', 'func', 1), ('w64', 'func', 2)])
         out.append(('futex_emit_o%d' % off, m, [{'call': 'n'}, {'call': 'w32'}, {'call': 'w64'}], {'futex_stub': True}))
     return out
+
+
+# ====================================================================== C02 conversion / bit-operation chains
+FLOAT_CHAINS = [['f64.convert_i32_s', 'i32.trunc_sat_f64_s'], ['f64.promote_f32', 'f32.demote_f64'], ['f64.reinterpret_i64', 'i64.reinterpret_f64'], ['i64.trunc_sat_f64_u', 'f64.convert_i64_u'],
+                ['f32.convert_i32_u', 'i32.trunc_sat_f32_u'], ['f32.demote_f64', 'f64.promote_f32'], ['i32.trunc_f32_s', 'f32.convert_i32_s'], ['f64.abs', 'f64.neg', 'f64.copysign@0'],
+                ['f32.ceil', 'i32.trunc_sat_f32_s'], ['f64.nearest', 'i64.trunc_sat_f64_s'], ['f32.neg', 'f32.abs', 'i32.reinterpret_f32'], ['i64.extend_i32_s', 'f64.convert_i64_s', 'f64.floor'],
+                ['f32.convert_i64_u', 'i64.trunc_sat_f32_u'], ['i64.trunc_f64_s', 'f32.convert_i64_s'], ['f64.trunc', 'i32.trunc_f64_u'], ['f32.copysign@0', 'f32.floor']]
+
+
+def float_chain(k):
+    ch = FLOAT_CHAINS[k]
+    first = ch[0].split('@')[0]
+    ps = SIG[first][0]
+    body = [('local.get', i) for i in range(len(ps))] if '@' not in ch[0] else [('local.get', 0)]
+    params = list(ps) if '@' not in ch[0] else [SIG[first][0][0]]
+    t = None
+    for op in ch:
+        if '@' in op:
+            base = op.split('@')[0]
+            body += [('local.get', 0), (base,)]
+            t = SIG[base][1]
+        else:
+            body += [(op,)]
+            t = SIG[op][1]
+    return Module(funcs=[Func(params, [t], [], body)], exports=[('f', 'func', 0)])
